@@ -82,6 +82,15 @@ def explore(ctx, tier, rng, search=False):
             rep.mismatch('impl_vs_model', case, impl=impl, model=m)
     # ---------------- (B) tables ----------------
     ntab = 260 if big else 45
+    cdir = os.path.join(VERIF, 'corpus', ID)       # kept failures and witnesses of known findings run first
+    if os.path.isdir(cdir):
+        for f in sorted(os.listdir(cdir)):
+            c = json.load(open(os.path.join(cdir, f))); c = c.get('case', c)
+            if c.get('kind') == 'table':
+                try:
+                    run_table(ctx, pdb2sql, rep, c)
+                except Exception as e:
+                    rep.mismatch('impl_vs_spec', c, error='harness/implementation exception: ' + exc_class(e) + ' ' + str(e)[:300])
     for t in range(ntab):
         n = rng.randint(1, 10)
         atoms = gen_pdb.gen_atoms(rng, n, chains=rng.choice([('A',), ('A', 'B'), ('A', 'B', 'C')]), wide=True)
@@ -95,6 +104,11 @@ def explore(ctx, tier, rng, search=False):
                     if rng.random() < 0.5:
                         a[c] = rng.choice(xs[:len(THR) * 44])
                         if not (-1e7 + 0.5 < a[c] < 1e8 - 0.5): a[c] = 1.0
+        if rng.random() < 0.08:
+            gone = rng.choice(sorted({a['chainID'] for a in atoms}))
+            for a in atoms:
+                if a['chainID'] == gone:
+                    a['chainID'] = ''        # the 0-character chain of the quantifier
         case = {'kind': 'table', 'atoms': atoms}
         try:
             run_table(ctx, pdb2sql, rep, case)
@@ -132,9 +146,13 @@ def explore(ctx, tier, rng, search=False):
 
 def make_db(pdb2sql, atoms):
     plain = [dict(a, x=0.0, y=0.0, z=0.0, occ=1.0, temp=1.0) for a in atoms]
+    # a record with a blank chain cannot be parsed (C01): such tables are reached through update_column
+    plain = [dict(a, chainID=(a['chainID'] or 'A')) for a in plain]
     db = pdb2sql.pdb2sql([gen_pdb.atom_line(a) for a in plain])
     for c in ('x', 'y', 'z', 'occ', 'temp'):
         db.update_column(c, [float(a[c]) for a in atoms])
+    if any(a['chainID'] == '' for a in atoms):
+        db.update_column('chainID', [a['chainID'] for a in atoms])
     return db
 
 def run_table(ctx, pdb2sql, rep, case, record=True):
@@ -176,6 +194,7 @@ def run_table(ctx, pdb2sql, rep, case, record=True):
     mlines = [outs[2 * i] for i in range(len(rows))]
     feats = []
     if any(abs(a[c]) >= 1000 for a in atoms for c in 'xyz'): feats.append('wide-coordinate')
+    if any(a['chainID'] == '' for a in atoms): feats.append('empty-chain-identifier')
     if any(len(a['name']) != 2 or a['name'] == a['element'] for a in atoms): feats.append('name-alignment-class')
     if any(a['serial'] < 0 or a['serial'] > 9999 or a['resSeq'] < 0 or a['resSeq'] > 999 for a in atoms): feats.append('wide-integer')
     if not fits: feats.append('does-not-fit')
@@ -226,7 +245,8 @@ def run_table(ctx, pdb2sql, rep, case, record=True):
                             bad = ('impl_vs_spec', dict(why='re-export differs', first=l1, second=l2))
                             break
             except Exception as e:
-                bad = ('impl_vs_spec', dict(why='reading the exported text back raised ' + exc_class(e), lines=L[:3]))
+                bad = ('impl_vs_spec', dict(why='reading the exported text back raised ' + exc_class(e), lines=L[:3],
+                                            blank_chain=any(a['chainID'] == '' for a in atoms), message=str(e)[:80]))
     if bad is None and file_issue is not None:
         bad = ('impl_vs_spec', file_issue)
     if bad:
